@@ -2335,7 +2335,8 @@ public:
       bool skipThen = dynamic_cast<SkipStatement*>(stmt.getThenStmt().get());
       bool skipElse = dynamic_cast<SkipStatement*>(stmt.getElseStmt().get());
       if (skipThen && skipElse) {
-        // Do nothing.
+        // No branches, but the condition may have side effects.
+        cb.genExpr(stmt.getCondition(), currentScope);
       } else if (skipElse) {
         // No else branch.
         auto endLabel = cb.getLabel();
